@@ -8,7 +8,7 @@ from .common import Out, import_mbi
 ID = 'C12'
 RULE = ('Exhaustive part: every labelled graph on n<=5 attributes (edges as 2-cliques) x every elimination order given as '
         'a permutation, plus order modes None and int once per graph with two size vectors (thorough: 3-clique masks, '
-        'all labelled 6-node graphs x 720 orders under a time cap). Generated part: Hypothesis draws 2-10 attributes, '
+        'all labelled 6-node graphs x 720 orders under a time cap). Generated part: Hypothesis draws 2-10 attributes (1 case in 12: 40-80 attributes, random tree of pairs plus triangles), '
         'clique lists (sizes 1-4, duplicates, nested, any internal order) and order mode None / permutation / int k with a '
         'drawn numpy seed. Oracle: validity predicate (tree, cover, maximality, running intersection, schedule, '
         'separators, neighbours). Non-trivial = the elimination needs fill-in under the order used, or the graph has '
@@ -202,6 +202,8 @@ def run_exhaustive(item):
 
 @st.composite
 def cases(draw, tier='quick'):
+    if draw(st.integers(0, 11)) == 0:
+        return draw(wide_cases())
     dom = draw(gen.domains(2, 10, 1, 5, cap=10**9))
     if draw(st.integers(0, 3)) == 0:
         dom['shape'] = [draw(st.sampled_from([1, 2, 7, 40, 100])) for _ in dom['shape']]     # construction only looks at sizes
@@ -214,6 +216,28 @@ def cases(draw, tier='quick'):
     if m == 'int':
         o['k'] = draw(st.integers(1, 5))
     return {'domain': dom, 'cliques': cliques, 'order': o, 'np_seed': draw(st.integers(0, 2**31 - 1))}
+
+
+@st.composite
+def wide_cases(draw):
+    """Many attributes (up to 80, as in census-like data): a random recursive tree of pairs plus a few triangles."""
+    n = draw(st.integers(40, 80))
+    names = ['x%02d' % i for i in range(n)]
+    perm = list(draw(st.permutations(names)))
+    cliques = []
+    for i in range(1, n):
+        j = draw(st.integers(max(0, i - 4), i - 1))
+        e = [perm[j], perm[i]]
+        cliques.append(e if draw(st.booleans()) else e[::-1])
+    for _ in range(draw(st.integers(0, 3))):
+        i = draw(st.integers(2, n - 1))
+        cliques.append([perm[i], perm[i - 1], perm[i - 2]])
+    m = draw(st.sampled_from(['none', 'perm', 'int']))
+    o = {'mode': m}
+    if m == 'perm': o['perm'] = list(draw(st.permutations(names)))
+    if m == 'int': o['k'] = draw(st.integers(1, 2))
+    return {'domain': {'attrs': names, 'shape': [draw(st.sampled_from([2, 2, 3]))] * n}, 'cliques': cliques, 'order': o,
+            'np_seed': draw(st.integers(0, 2**31 - 1)), 'wide': True}
 
 
 def strategy(tier):
@@ -242,5 +266,5 @@ def run_case(case):
     fill = sorted(eo) == sorted(attrs) and needs_fill(attrs, case['cliques'], eo)
     comp = components_with_edge(attrs, case['cliques'])
     out.nontrivial = bool(fill or comp)
-    out.classes = ['order:' + o['mode']] + (['fill_in'] if fill else []) + (['multi_component'] if comp else []) + ['n_attrs>=7'] * (len(attrs) >= 7)
+    out.classes = ['order:' + o['mode']] + (['fill_in'] if fill else []) + (['multi_component'] if comp else []) + ['n_attrs>=7'] * (len(attrs) >= 7) + ['n_attrs>64'] * (len(attrs) > 64)
     return out
